@@ -6,8 +6,8 @@ require (
 	github.com/anishathalye/porcupine v1.3.0
 	github.com/ipfs/go-cid v0.6.2
 	github.com/ipld/go-ipld-prime v0.0.0
+	github.com/multiformats/go-multicodec v0.10.0
 	github.com/multiformats/go-multihash v0.2.3
-	github.com/polydawn/refmt v0.90.0
 )
 
 require (
@@ -18,6 +18,7 @@ require (
 	github.com/multiformats/go-base36 v0.2.0 // indirect
 	github.com/multiformats/go-multibase v0.3.0 // indirect
 	github.com/multiformats/go-varint v0.1.0 // indirect
+	github.com/polydawn/refmt v0.90.0 // indirect
 	github.com/spaolacci/murmur3 v1.1.0 // indirect
 	golang.org/x/crypto v0.53.0 // indirect
 	golang.org/x/sys v0.46.0 // indirect
